@@ -60,6 +60,16 @@ type Limits struct {
 }
 
 func loadProgram(repo, harnessDir string, patterns []string) (*Prog, error) {
+	p, _, err := loadProgramTests(repo, harnessDir, patterns, false)
+	return p, err
+}
+
+// loadTests loads the packages with their tests and returns the Test* functions found.
+func loadTests(repo, harnessDir string, patterns []string) (*Prog, []*ssa.Function, error) {
+	return loadProgramTests(repo, harnessDir, patterns, true)
+}
+
+func loadProgramTests(repo, harnessDir string, patterns []string, withTests bool) (*Prog, []*ssa.Function, error) {
 	overlay := map[string][]byte{}
 	extra := map[string]bool{}
 	err := filepath.Walk(harnessDir, func(p string, info os.FileInfo, err error) error {
@@ -79,7 +89,7 @@ func loadProgram(repo, harnessDir string, patterns []string) (*Prog, error) {
 		return nil
 	})
 	if err != nil {
-		return nil, err
+		return nil, nil, err
 	}
 	pats := append([]string{}, patterns...)
 	for _, must := range []string{"./internal/verifnd", "./internal/verifenv"} {
@@ -92,11 +102,12 @@ func loadProgram(repo, harnessDir string, patterns []string) (*Prog, error) {
 		Dir:        repo,
 		BuildFlags: []string{"-tags=verif"},
 		Overlay:    overlay,
+		Tests:      withTests,
 		Env:        append(os.Environ(), "GOFLAGS=-mod=mod", "GOPROXY=off", "GOSUMDB=off", "GOTOOLCHAIN=local"),
 	}
 	pkgs, err := packages.Load(cfg, pats...)
 	if err != nil {
-		return nil, err
+		return nil, nil, err
 	}
 	var errs []string
 	packages.Visit(pkgs, nil, func(p *packages.Package) {
@@ -107,13 +118,30 @@ func loadProgram(repo, harnessDir string, patterns []string) (*Prog, error) {
 		}
 	})
 	if len(errs) > 0 {
-		return nil, fmt.Errorf("harness does not type-check against the current tree:\n  %s", strings.Join(errs, "\n  "))
+		return nil, nil, fmt.Errorf("harness does not type-check against the current tree:\n  %s", strings.Join(errs, "\n  "))
 	}
-	prog, _ := ssautil.AllPackages(pkgs, ssa.InstantiateGenerics|ssa.BareInits)
+	prog, initial := ssautil.AllPackages(pkgs, ssa.InstantiateGenerics|ssa.BareInits)
 	prog.Build()
 	p := &Prog{prog: prog, pkgs: map[string]*ssa.Package{}, infos: map[*ssa.Function]*fnInfo{}, modPath: modPath}
 	for _, sp := range prog.AllPackages() {
-		p.pkgs[sp.Pkg.Path()] = sp
+		if _, dup := p.pkgs[sp.Pkg.Path()]; !dup {
+			p.pkgs[sp.Pkg.Path()] = sp
+		}
+	}
+	var tests []*ssa.Function
+	if withTests {
+		// the test variant of a package ("p [p.test]") replaces the plain one
+		for i, pk := range pkgs {
+			if initial[i] == nil || !strings.Contains(pk.ID, "[") {
+				continue
+			}
+			p.pkgs[pk.PkgPath] = initial[i]
+			for name, mem := range initial[i].Members {
+				if fn, ok := mem.(*ssa.Function); ok && strings.HasPrefix(name, "Test") && fn.Signature.Params().Len() == 1 {
+					tests = append(tests, fn)
+				}
+			}
+		}
 	}
 	// initialisation order: dependencies first
 	seen := map[*types.Package]bool{}
@@ -146,7 +174,7 @@ func loadProgram(repo, harnessDir string, patterns []string) (*Prog, error) {
 		visit(r)
 	}
 	p.initPkgs = order
-	return p, nil
+	return p, tests, nil
 }
 
 // plantGlobals supplies the few library globals whose packages are not initialised.
@@ -187,6 +215,8 @@ func main() {
 		os.Exit(cmdRun(os.Args[2:]))
 	case "replay":
 		os.Exit(cmdReplay(os.Args[2:]))
+	case "selftest":
+		os.Exit(cmdSelftest(os.Args[2:]))
 	default:
 		fmt.Println("unknown command")
 		os.Exit(2)
